@@ -1,24 +1,39 @@
 #!/usr/bin/env python3
-"""mkoverlay.py <patch.diff> <outdir> [repo]: applies a unified diff (paths relative to the repo root, a/ b/
-prefixes) to COPIES of the touched files under <outdir> and writes <outdir>/overlay.json for `go build -overlay`.
-/repo is never modified."""
+"""mkoverlay.py <mutant-dir> <outdir> [repo]: builds an overlay for `go build -overlay` from a mutant directory.
+The directory holds either edits.json = [{"file": "mp4/x.go", "old": "...", "new": "..."}...] (exact, unique
+string replacements) or patch.diff (unified diff, a/ b/ prefixes). The touched files are COPIED to <outdir>/src and
+changed there; /repo is never modified. Prints the overlay path."""
 import json, os, re, shutil, subprocess, sys
-patch, out = sys.argv[1], sys.argv[2]
+mdir, out = sys.argv[1], sys.argv[2]
 repo = sys.argv[3] if len(sys.argv) > 3 else "/repo"
+if os.path.isfile(mdir):
+    mdir = os.path.dirname(mdir)
 os.makedirs(out, exist_ok=True)
-files = []
-for l in open(patch):
-    m = re.match(r'^\+\+\+ b/(\S+)', l)
-    if m: files.append(m.group(1))
 replace = {}
-for f in files:
+def stage(f):
     dst = os.path.join(out, "src", f)
-    os.makedirs(os.path.dirname(dst), exist_ok=True)
-    if os.path.exists(os.path.join(repo, f)):
-        shutil.copy(os.path.join(repo, f), dst)
-    replace[os.path.join(repo, f)] = dst
-r = subprocess.run(["patch", "-p1", "-s", "-d", os.path.join(out, "src"), "-i", os.path.abspath(patch)], capture_output=True, text=True)
-if r.returncode != 0:
-    sys.stderr.write(r.stdout + r.stderr); sys.exit(2)
+    if os.path.join(repo, f) not in replace:
+        os.makedirs(os.path.dirname(dst), exist_ok=True)
+        if os.path.exists(os.path.join(repo, f)):
+            shutil.copy(os.path.join(repo, f), dst)
+        replace[os.path.join(repo, f)] = dst
+    return dst
+ej = os.path.join(mdir, "edits.json")
+if os.path.exists(ej):
+    for e in json.load(open(ej)):
+        dst = stage(e["file"])
+        s = open(dst).read()
+        if s.count(e["old"]) != 1:
+            sys.stderr.write("edit does not apply uniquely in %s: %r (%d matches)\n" % (e["file"], e["old"][:60], s.count(e["old"])))
+            sys.exit(2)
+        open(dst, "w").write(s.replace(e["old"], e["new"]))
+else:
+    patch = os.path.join(mdir, "patch.diff")
+    for l in open(patch):
+        m = re.match(r'^\+\+\+ b/(\S+)', l)
+        if m: stage(m.group(1))
+    r = subprocess.run(["patch", "-p1", "-s", "-d", os.path.join(out, "src"), "-i", os.path.abspath(patch)], capture_output=True, text=True)
+    if r.returncode != 0:
+        sys.stderr.write(r.stdout + r.stderr); sys.exit(2)
 json.dump({"Replace": replace}, open(os.path.join(out, "overlay.json"), "w"), indent=1)
 print(os.path.join(out, "overlay.json"))
